@@ -2,6 +2,7 @@
  *   -DVF_GOST_T -DVF_T_FN=gost3411_2012_transform_n_generic | gost3411_2012_transform_n
  *               [-DVF_ALIGN=r] [-DVF_T_NBLK=n] [-DVF_T_BITS=bits]   h = g_N(h,m); N += bits; Sigma += m
  *   -DVF_GOST_T -DVF_T1 -DVF_T_FN=gost3411_2012_transform_1_generic | gost3411_2012_transform_1   h = g_0(h,m)
+ *   -DVF_GOST_LEMMA   spec-internal: scatter/shift spelling of LPS == definitional spelling
  *   -DVF_GOST_XSLP=1..4   gost3411_2012_XSLP == LPS(a xor b) in each call shape
  *   -DVF_GOST_ADD [-DVF_GOST_ADD_DIGIT] -DVF_GOST_ADD_ENFORCE   gost3411_2012_addmod512[_digit] == spec addition
  *   -DVF_GOST_TABLES   the expanded table Ax[8][256] == L o P o S contribution of each (position, byte)
@@ -34,22 +35,31 @@ void harness(void) {
 		for (unsigned i = 0; i < 8; i++)
 			VF_ASSERT(gost3411_2012_C[r][i] == vf_gost_C[r][i], "iteration constants C_1..C_12");
 	VF_CANARY("gost tables harness end");
+#elif defined(VF_GOST_LEMMA)
+	/* the two spellings of P o S used by the specification are the same function */
+	uint64_t x[8], g[8], sc[8];
+	for (unsigned i = 0; i < 8; i++) x[i] = nondet_uint64_t();
+	vf_gost_ps_gather(g, x);
+	vf_gost_ps_scatter(sc, x);
+	for (unsigned i = 0; i < 8; i++)
+		VF_ASSERT(g[i] == sc[i], "P o S: scatter spelling == gather spelling");
+	VF_CANARY("gost lemma harness end");
 #elif defined(VF_GOST_XSLP)
 	/* dst = LPS(a xor b) in the call shapes of the g_N / g_0 steps; the context is the
 	 * harness's own object so that the scratch buffers are concrete pointers.
 	 * VF_GOST_XSLP = 1: (kbuf, hash, counter)   2: (tbuf, kbuf, block)
-	 *                3: (kbuf, kbuf, C[i])  dst == a   4: (tbuf, tbuf, kbuf)  dst == a */
+	 *                3: (kbuf, kbuf, any)   dst == a   4: (tbuf, tbuf, kbuf)  dst == a */
 	VF_NONDET_OBJ(gost3411_2012_ctx_t, ctx_obj);
 	VF_NONDET_BYTES(blk, 64);
-	VF_NONDET(size_t, ci);
-	VF_ASSUME(ci < 12);
 	gost3411_2012_ctx_t *ctx = &ctx_obj;
-#if VF_GOST_XSLP == 1
+#if VF_GOST_XSLP == 5	/* gost3411_2012_SLP(kbuf, hash): first step of g_0 */
+	gost3411_2012_SLP(ctx, ctx->kbuf, ctx->hash);
+#elif VF_GOST_XSLP == 1
 	gost3411_2012_XSLP(ctx, ctx->kbuf, ctx->hash, ctx->counter);
 #elif VF_GOST_XSLP == 2
 	gost3411_2012_XSLP(ctx, ctx->tbuf, ctx->kbuf, (const uint64_t *)(const void *)blk.b);
 #elif VF_GOST_XSLP == 3
-	gost3411_2012_XSLP(ctx, ctx->kbuf, ctx->kbuf, gost3411_2012_C[ci]);
+	gost3411_2012_XSLP(ctx, ctx->kbuf, ctx->kbuf, (const uint64_t *)(const void *)blk.b);	/* any 64-byte operand, C[i] included */
 #else
 	gost3411_2012_XSLP(ctx, ctx->tbuf, ctx->tbuf, ctx->kbuf);
 #endif
